@@ -24,6 +24,7 @@ import ast
 from ..repo import AnalysisError, FuncInfo, dotted, own_nodes
 from ..sublist import SubInterp, is_sub
 from .c07 import registry
+from .common import key_lambda
 
 MANIFEST = {
     "text": (
@@ -130,14 +131,8 @@ def _selection(fi: FuncInfo):
 
 def _key_shape(key, fi=None):
     """('attr', name, negated) or ('table', name, negated) or None."""
-    if isinstance(key, ast.Name) and fi is not None:
-        # a named local function used as key
-        for n in ast.walk(fi.node):
-            if isinstance(n, ast.FunctionDef) and n.name == key.id and len(n.args.args) == 1:
-                rets = [r for r in ast.walk(n) if isinstance(r, ast.Return) and r.value is not None]
-                if len(rets) == 1:
-                    key = ast.Lambda(args=n.args, body=rets[0].value)
-                    break
+    if fi is not None:
+        key = key_lambda(fi, key)
     if not isinstance(key, ast.Lambda) or len(key.args.args) != 1:
         return None
     p = key.args.args[0].arg
@@ -428,11 +423,14 @@ def metadata(ctx):
         if sb is None:
             chk.violation("R04.e", call, None, "solved_by is not recorded in the schedule metadata")
         else:
-            t = ast.unparse(sb.value)
-            if t in ("self.__class__.__name__", "type(self).__name__") or (isinstance(sb.value, ast.Constant) and sb.value.value == cls.name):
+            xv = ctx.norm.xexpr(call, sb.value)
+            t = ast.unparse(xv)
+            if t in ("self.__class__.__name__", "type(self).__name__") or (isinstance(xv, ast.Constant) and xv.value == cls.name):
                 chk.ok("R04.e", call.qualname, call.loc(sb), "solved_by = class name")
-            else:
+            elif isinstance(xv, ast.Constant) or t.endswith(".__name__") or t.endswith(".__qualname__"):
                 chk.violation("R04.e", call, sb, f"solved_by is `{t}`, not the solver's class name", loc=call.loc(sb))
+            else:
+                raise AnalysisError(f"{call.loc(sb)}: value stored as solved_by (`{t[:60]}`) not recognised")
     chk.floor("R04.e", n, 1, "__call__ implementations")
 
 
